@@ -24,6 +24,7 @@ BUILTIN = {
     "is_control": set(range(0x00, 0x20)) | set(range(0x7F, 0xA0)),
 }
 ALL = set(range(256))
+FACTS = None      # set by callers that want crate-local one-byte predicate helpers inlined
 
 
 def is_var(e, var):
@@ -155,6 +156,13 @@ def true_set(e, var):
         return out
     if k == "block" and not e[1] and e[2] is not None:
         return true_set(e[2], var)
+    if k == "call" and e[1][0] == "path" and len(e[2]) == 1 and is_var(e[2][0], var) and FACTS is not None:
+        # crate-local predicate helper over one byte: interpret its body over its own parameter
+        h = FACTS.hirfns.get(e[1][1].get("def", ""))
+        if h is not None and len(h["params"]) == 1 and h["params"][0][0] == "bind":
+            return true_set(h["body"], h["params"][0][1])
+    if k == "ret" and e[1] is not None:
+        return true_set(e[1], var)
     return None
 
 
